@@ -101,13 +101,17 @@ def prepare_scratch(scratch):
     sdir = os.path.join(scratch, "src")
     os.makedirs(sdir, exist_ok=True)
     stats = []
-    for f in os.listdir(SRC):
+    defs = ["/* generated: loop-contract clause text per (file, function, ordinal); force-included after the contracts */"]
+    for f in sorted(os.listdir(SRC)):
         p = os.path.join(SRC, f)
         if f.endswith(".c"):
             loops = os.path.join(VERIF, "contracts", f[:-2] + ".loops")
-            stats.append(annotate.annotate_file(p, loops, os.path.join(sdir, f)))
+            st = annotate.annotate_file(p, loops, os.path.join(sdir, f))
+            defs += st.pop("_defs")
+            stats.append(st)
         elif f.endswith(".h"):
             shutil.copy(p, os.path.join(sdir, f))
+    open(os.path.join(sdir, "lc_defs.h"), "w").write("\n".join(defs) + "\n")
     return stats
 
 
@@ -132,6 +136,7 @@ def run_job(job, scratch_root, keep=False):
     cc += job["cc_flags"]
     for c in job["contracts"]:
         cc += ["-include", os.path.join(VERIF, "contracts", c)]
+    cc += ["-include", os.path.join(sdir, "lc_defs.h")]
     cc += ["--function", entry, harness, "-o", a]
     rc, out, err, _ = sh(cc, cwd=wd, timeout=300)
     if rc != 0:
